@@ -67,9 +67,10 @@ def corr_bilform(res, tier, salt, curves=('unitsquare', 'lshape', 'interval', 'r
 
 def with_generated(lines, expect, *parallel):
     """For every request to the hand-written model that has a twin among the definitions REGENERATED from
-    src/single_layer.py (Stbem.Gen.Panels: `sl genbil`, `sl geneval`, `sl genpanels`), appends the twin request with
+    src/single_layer.py (Stbem.Gen.Panels: `sl genbil`, `sl geneval`, `sl genpanels`; Stbem.Gen.SLRest: `sl genevalx`,
+    `sl genpot`), appends the twin request with
     the same expected answer (the answer of the real Python code).  Lists in `parallel` get a copy of the entry."""
-    twin = {'bil': 'genbil', 'eval': 'geneval', 'panels': 'genpanels'}
+    twin = {'bil': 'genbil', 'eval': 'geneval', 'panels': 'genpanels', 'evalx': 'genevalx', 'pot': 'genpot'}
     n = len(lines)
     for i in range(n):
         p = lines[i].split(' ', 2)
@@ -175,6 +176,94 @@ def corr_panels(res, tier, salt, curves=('unitsquare', 'lshape', 'interval', 're
                 return
     res.sample(dict(request='sl panels / sl genpanels a b c d', answer='kind:a:b:c:d ... in evaluation order | err',
                     python='real __integrate with recording stand-ins for duff_log_log / log_log'))
+
+
+class ExactNP:
+    """Stand-in for the module `np` of the code under test: `np.zeros` must hold exact numbers; everything else is NumPy."""
+    def __getattr__(self, k):
+        return getattr(np, k)
+
+    def zeros(self, shape, *a, **k):
+        out = np.empty(shape, dtype=object)
+        out.fill(Q(0))
+        return out
+
+
+@contextlib.contextmanager
+def patched_module(mod, **names):
+    saved = {k: mod.__dict__.get(k, patched_module) for k in names}
+    mod.__dict__.update(names)
+    try:
+        yield
+    finally:
+        for k, v in saved.items():
+            if v is patched_module:
+                mod.__dict__.pop(k, None)
+            else:
+                mod.__dict__[k] = v
+
+
+def data_fn(c):
+    """(t, x) -> c0 + c1 t + c2 x_0 + c3 x_0 x_1 on exact numbers (x of shape (2,1) or (2,n)); the driver's `parseDataFn?`"""
+    if c is None:
+        return None
+    c = [Q(v) for v in c]
+    return lambda t, x: c[0] + c[1] * t + c[2] * x[0] + c[3] * x[0] * x[1]
+
+
+def enc_data_fn(c):
+    return 'none' if c is None else ','.join(q2s(v) for v in c)
+
+
+def corr_vectors(res, tier, salt):
+    """`evaluate_vector`, `potential_vector`, `rhs_vector` of the REAL operator (its mesh stub filled with exact elements, the
+    module's `np.zeros` replaced by an exact one) against the definitions regenerated from the source (Gen/SLRest.lean)."""
+    import src.single_layer as SLmod
+    rng = seed_rng(res.seed, salt)
+    for curve in ('unitsquare', 'lshape', 'interval'):
+        fx = Fixture(rng, curve, False, log_nodes=rng.randint(1, 3))
+        ivs = random_space_intervals(rng, fx, 8)
+        elems = [fx.elem(*rng.choice(TIME_LATTICE), *rng.choice(ivs)) for _ in range(3 if tier == 'quick' else 7)]
+        fx.SL._init_elems(elems)
+        fx.SL.mesh.leaf_elements = elems
+        fx.SL.mesh.gamma_space.eval = lambda xh: fx.gamma(xh.v if hasattr(xh, 'v') else xh)[0]
+        lines = fx.context_lines()
+        expect = ['ok'] * len(lines)
+        gauss_rule = fx.SL.gauss_scheme
+        enc = ' '.join(e.encode() for e in elems)
+        with installed(fx.standins), patched_module(SLmod, np=ExactNP(), gauss_quadrature_scheme=lambda *a, **k: gauss_rule):
+            for _ in range(6 if tier == 'quick' else 30):
+                t = rng.choice([F(0), F(1, 8), F(1, 2), F(5, 8), F(1), F(7, 4), F(3)])
+                xh = rng.choice([F(rng.randint(0, 64), 64) * fx.length, rng.choice(ivs)[0], rng.choice(ivs)[1]])
+                x, _ = fx.gamma(xh)
+                try:
+                    v = ','.join(result_str(u) for u in fx.SL.evaluate_vector(Q(t), Q(xh)))
+                except AssertionError:
+                    v = None      # in-element point closer than 1e-5 to an end: precondition of the interval rule
+                if v is not None:
+                    lines.append('sl genevalvec %s %s %s %s %s' % (q2s(t), q2s(xh), q2s(x[0, 0]), q2s(x[1, 0]), enc))
+                    expect.append(v)
+                xo = x + Q(F(rng.randint(1, 5), 7))
+                if hasattr(fx.SL, 'potential_vector'):
+                    v = ','.join(result_str(u) for u in fx.SL.potential_vector(Q(t), xo))
+                    lines.append('sl genpotvec %s %s %s %s' % (q2s(t), q2s(xo[0, 0]), q2s(xo[1, 0]), enc))
+                    expect.append(v)
+            for _ in range(2 if tier == 'quick' else 8):
+                c = [F(rng.randint(-3, 3), rng.randint(1, 3)) for _ in range(4)]
+                v = ','.join(result_str(u) for u in fx.SL.rhs_vector(data_fn(c)))
+                lines.append('sl genrhsvec %s %s' % (enc_data_fn(c), enc))
+                expect.append(v)
+        out = run_driver(lines)
+        for line, want, got in zip(lines, expect, out):
+            if want == 'ok':
+                continue
+            res.count(('slrest-vec', line), True)
+            res.bump('generated_vector_requests')
+            if want != got:
+                res.broken_obligation('correspondence %s: a vector method of src/single_layer.py differs from the definition '
+                                      'regenerated from the source (Gen/SLRest.lean)' % res.pid,
+                                      'curve %s\nline: %s\npython: %s\nlean:   %s' % (curve, line[:400], want[:300], got[:300]))
+                return
 
 
 def corr_mpcol(res, tier, salt):
